@@ -185,15 +185,17 @@ fn c01(a: &Args) {
     let pool = read_pool(a.req("pool"));
     let mut w = out_file(a.req("out"));
     let mut cur = Cur::new(&format!("{}.cur", a.req("out")));
-    let full = a.get("matrix") != Some("small");
+    let full = a.get("matrix").is_none();
+    let tiny = a.get("matrix") == Some("tiny");
     let mut maxw: HashMap<usize, (u64, String, String)> = HashMap::new();
     let (mut runs, mut bad) = (0usize, 0usize);
     let mut worst = (0f64, String::new());
     for (_o, t) in &pool {
         let len = t.chars().count();
-        let bes: &[Backend] = if full { &ALL_BACKENDS } else { &[Backend::Str, Backend::Buf, Backend::S8] };
+        let bes: &[Backend] = if full { &ALL_BACKENDS } else if tiny { &[Backend::Buf, Backend::S8] } else { &[Backend::Str, Backend::Buf, Backend::S8] };
+        let apis: &[Api] = if tiny { &[Api::Iter, Api::PushMulti] } else { &ALL_APIS };
         for &be in bes {
-            for api in ALL_APIS {
+            for &api in apis {
                 let cfg = format!("{}/{}", be.name(), api.name());
                 cur.set(t, &cfg);
                 let r = run_parser(t, be, api);
@@ -213,7 +215,13 @@ fn c01(a: &Args) {
             }
         }
         for ty in ALL_NODETY {
+            if tiny && !matches!(ty, NodeTy::Yaml | NodeTy::MarkedOwned) {
+                continue;
+            }
             for via in 0..2 {
+                if tiny && via == 1 {
+                    continue;
+                }
                 let cfg = format!("load/{}/{}", ty.name(), if via == 0 { "iter" } else { "str" });
                 cur.set(t, &cfg);
                 let l = if via == 0 { load_str(t, ty, false) } else { load_parser_str(t, ty, false) };
